@@ -696,12 +696,14 @@ def ref_parse(text, bare=True):
     return ('ok', (sub, comps))
 
 
-def rule_r4(repo, tier='quick'):
+def rule_r4(repo, tier='quick', depth=None):
     """The whole parser folded on concrete strings - grammatical ones and near misses - for both settings of bare_id_matches_all,
     against the reference parse: accepted exactly when grammatical, rejected with the path-parsing error and nothing else, and an
     accepted string yields the subset selector, the components and the slices the grammar dictates."""
     rr = RuleResult('C15.R4', 'whole parse of concrete strings against a reference parser: acceptance, error class, components and slices (both settings of bare_id_matches_all)')
     parse = repo.own_method('NodePathParser', 'parse')
+    if depth is None:
+        depth = 3 if tier == 'thorough' else 1
 
     def skey(v):
         if isinstance(v, Obj) and v.cls == 'slice':
@@ -725,8 +727,25 @@ def rule_r4(repo, tier='quick'):
            '/001001[a]', '/001001[1:2:3:4]', '/001001]', '//001001', '/001001/', '/001001//004001', '.A01001', '/001001[1]2', '/001001[1][2]', '/001001[-]', '/001001[--1]',
            '/001001[1-]', '/001001@[1]', '[1]', ':', '/', '>', '/001001.', '/001001>', '@[1:2:3:4]/001001', '/001001[1:2:3:]', 'abc', '/001001[1::2:]']
     n = 0
+    enumerated = 0
+    if depth:
+        import itertools
+        alphabet = ['@', '[', ']', ':', '/', '.', '>', '1', 'A', '-', ' ']
+        prefixes = ['', '@[1]', '/001001', '/001001[1', '/001001[1:', '@[-1', '/0', '/001001[1]', '@[1:2]/A01001[::', '>301011/004001']
+        seen = set(good) | set(bad)
+        extra = []
+        for pre in prefixes:
+            for k in range(0, depth + 1):
+                for tail in itertools.product(alphabet, repeat=k):
+                    t = pre + ''.join(tail)
+                    if t not in seen:
+                        seen.add(t)
+                        extra.append(t)
+        enumerated = len(extra)
+    else:
+        extra = []
     for bare in (True, False):
-        for text in good + bad:
+        for text in good + bad + extra:
             want = ref_parse(text, bare)
             it = ConcreteParser(repo, 'NodePathParser')
             res = it.run_function(parse, lambda: {'self': Obj('NodePathParser', {'bare_id_matches_all': bare}), 'path_expr': text}, self_class='NodePathParser')
@@ -755,13 +774,26 @@ def rule_r4(repo, tier='quick'):
                 rr.fail('whole-parse:subset', parse.where, 'the string %r selects the subsets %s; the grammar dictates %s' % (text, skey(p.fields.get('subset_slice')), skey(want[1][0])),
                         witness={'input': text})
     rr.instance('%d strings x 2 settings: %d grammatical, %d near misses' % ((len(good) + len(bad)), len(good), len(bad)))
+    if depth:
+        rr.instance('every continuation of up to %d characters (alphabet of 11 character classes) of 10 prefixes: %d more strings x 2 settings' % (depth, enumerated))
     rr.extra = {'strings': n}
     rr.require_floor(1)
     return rr
 
 
 def run(repo, check):
-    r1 = rule_r1(repo, check.tier)
+    try:
+        r1 = rule_r1(repo, check.tier)
+    except AnalysisError as e:
+        # the parser is written in a way the token / state abstraction does not cover (state kept elsewhere, another driver loop): the
+        # language is then decided on the bounded family instead - every continuation of up to 2 (thorough: 3) characters of ten prefixes
+        # that reach every state of the grammar, parsed by folding the code as it stands and compared with the reference parser
+        r1 = rule_r4(repo, check.tier, depth=3 if check.tier == 'thorough' else 2)
+        r1.rule = 'C15.R1'
+        r1.title = 'the language of NodePathParser equals the documented grammar on every short continuation of ten prefixes (bounded: %s)' % e
+        for f in r1.findings:
+            f.rule = 'C15.R1'
+        r1.extra = {'states': 0, 'transitions': r1.extra['strings'], 'samples': [{'note': 'bounded enumeration, no product automaton: ' + str(e)}]}
     check.add(r1)
     check.run_rule(rule_r2, repo)
     check.run_rule(rule_r3, repo, check.tier)
